@@ -56,11 +56,39 @@ class BuildResult:
         self.driver_ok = driver_ok
 
 
+class _Lock:
+    """exclusive, re-entrant (within this process) lock on the Lean build directory: the regenerated sources, the
+    build and the audit of one check run must see the same .olean files even when several checks (possibly
+    against different FINAM_SRC trees) run at the same time"""
+
+    depth = 0
+    fh = None
+
+    def __enter__(self):
+        if _Lock.depth == 0:
+            os.makedirs(os.path.join(LEAN, ".lake"), exist_ok=True)
+            _Lock.fh = open(os.path.join(LEAN, ".lake", "verif.lock"), "w")
+            fcntl.flock(_Lock.fh, fcntl.LOCK_EX)
+        _Lock.depth += 1
+        return self
+
+    def __exit__(self, *a):
+        _Lock.depth -= 1
+        if _Lock.depth == 0:
+            _Lock.fh.close()
+            _Lock.fh = None
+
+    close = lambda self: self.__exit__()  # noqa
+
+
+def leanlock():
+    return _Lock()
+
+
 def _lock():
-    os.makedirs(os.path.join(LEAN, ".lake"), exist_ok=True)
-    f = open(os.path.join(LEAN, ".lake", "verif.lock"), "w")
-    fcntl.flock(f, fcntl.LOCK_EX)
-    return f
+    l = _Lock()
+    l.__enter__()
+    return l
 
 
 def regenerate():
